@@ -1184,3 +1184,19 @@ contract("ghost:dbm_del_contains", params=dict(d=DBMT, k=TBytes, k2=TBytes), ret
 contract("ghost:dbm_clear_len", params=dict(d=DBMT), returns=TInt, ghost_scope=GD,
          body="def dbm_clear_len(d):\n    d.clear()\n    return len(d)\n",
          requires=[shelf_inv("d>_DBMDict__shelf")], modifies=["d"], ensures=["result == 0"], modifies_ghost=["fh_pos"], props=["C20"])
+
+
+# ---- membership (collections.abc.Sequence.__contains__ as documented, B5) and release -----------------------------------------------
+contract(SPF + ".__contains__", params=dict(self=SPFT, value=TBytes), returns=TBool, modifies=["self"], requires=U_AINV,
+         body="""def __contains__(self, value):
+    for v in self:
+        if v is value or v == value:
+            return True
+    return False
+""",
+         ghost_scope=GA,
+         ensures=U_RO + ["result == (value in %s)" % (U_APK % ("0", "1", ULEN))],
+         loops={0: dict(invariant=["not (value in dkeys_prefix)"] if False else [
+             (lambda E, env: SV(z3.Not(z3.Contains(z3.Extract(E.list_sv(env["_items"]).t, 0, z3_int(env["it"])),
+                                                   z3.Unit(E.to_sv(env["value"], TBytes).t))), TBool))])},
+         modifies_ghost=FGHOST, no_runtime=True, props=["C19"])
